@@ -54,6 +54,7 @@ class QString
 public:
     QString() {}
     QString(const char *utf8) : d_(utf8 ? utf8 : "") {}
+    QString(const char *utf8, size_t n) : d_(utf8, n) {}
     QString(const std::string &s) : d_(s) {}
     bool isEmpty() const { return d_.empty(); }
     int size() const { return static_cast<int>(d_.size()); }
@@ -98,7 +99,8 @@ public:
 private:
     std::string d_;
 };
-#define QStringLiteral(str) QString(str)
+// like Qt's, sized from the literal: an embedded NUL does not end the string
+#define QStringLiteral(str) QString(str, sizeof(str) - 1)
 #define QLatin1String(str) QString(str)
 
 // ---------------------------------------------------------------- QList / QStringList
